@@ -20,8 +20,14 @@ import time
 
 ROOT = os.path.dirname(os.path.dirname(os.path.abspath(__file__)))
 COQ = os.path.join(ROOT, "coq")
-HARNESS = os.path.join(ROOT, "harness")
-WORK = os.path.join(ROOT, "work")
+# The registered commands use the defaults (/repo, /verif/harness, /verif/work, /verif/evidence).
+# The environment overrides exist for tools/sandbox.sh only: it runs a check against a scratch
+# copy of the repository (a seeded or property-preserving change applied) without touching
+# /repo or the committed evidence, so that many such runs can go on at the same time.
+HARNESS = os.environ.get("VERIF_HARNESS", os.path.join(ROOT, "harness"))
+WORK = os.environ.get("VERIF_WORK", os.path.join(ROOT, "work"))
+SHARED_WORK = os.path.join(ROOT, "work")
+EVIDENCE = os.environ.get("VERIF_EVIDENCE", os.path.join(ROOT, "evidence"))
 REPO = os.environ.get("VERIF_REPO", "/repo")
 
 sys.path.insert(0, os.path.join(ROOT, "tools"))
@@ -47,8 +53,10 @@ def run(cmd, cwd=None, env=None, timeout=None):
 
 class Lock:
     def __init__(self, name):
-        os.makedirs(WORK, exist_ok=True)
-        self.path = os.path.join(WORK, name)
+        # the Coq build is shared by every run; the Go build is per work directory
+        base = SHARED_WORK if name.startswith("coq") else WORK
+        os.makedirs(base, exist_ok=True)
+        self.path = os.path.join(base, name)
 
     def __enter__(self):
         self.f = open(self.path, "w")
@@ -173,7 +181,7 @@ def run_vh(pid, outdir, seed, tier, replay=None, scale=None, timeout=3000):
         cmd += ["-replay", replay]
     if scale:
         cmd += ["-scale", str(scale)]
-    env = dict(GOENV, VERIF_ROOT=ROOT, VERIF_REPO=REPO)
+    env = dict(GOENV, VERIF_ROOT=ROOT, VERIF_REPO=REPO, VERIF_WORK=WORK)
     try:
         rc, out = run(cmd, cwd=ROOT, env=env, timeout=timeout)
     except subprocess.TimeoutExpired:
@@ -301,8 +309,8 @@ def write_evidence(pid, tier, seed, ev, wall, violations):
         "wall_s": round(wall, 2),
         "violations": violations,
     }
-    os.makedirs(os.path.join(ROOT, "evidence"), exist_ok=True)
-    with open(os.path.join(ROOT, "evidence", pid + ".json"), "w") as f:
+    os.makedirs(EVIDENCE, exist_ok=True)
+    with open(os.path.join(EVIDENCE, pid + ".json"), "w") as f:
         json.dump(doc, f, indent=1, default=str)
 
 
